@@ -63,9 +63,9 @@ func observe(st *reftable.Stack, dir string, status string) string {
 }
 
 func runHistories(c *ctx, which string) error {
-	n := 60
+	n := 200
 	if c.thorough() {
-		n = 1500
+		n = 4000
 	}
 	hist := map[string]int{}
 	for i := 0; i < n; i++ {
@@ -115,6 +115,11 @@ func runHistories(c *ctx, which string) error {
 		var ops []string
 		var obs []string
 		seenTab := map[string]bool{}
+		type lkey struct {
+			n string
+			u uint64
+		}
+		var liveLogs []lkey
 		for j := 0; j < nops; j++ {
 			var o hop
 			ntab := len(readList(dir))
@@ -141,11 +146,14 @@ func runHistories(c *ctx, which string) error {
 				if c.rng.Intn(2) == 0 {
 					o.exp.MinUpdateIndex = lim()
 				}
-			case r <= 1 && ntab >= 1 && which != "c12":
+			case r <= 2 && ntab >= 2 && which != "c12":
 				o.kind = "C"
 				o.first = c.rng.Intn(ntab)
+				if c.rng.Intn(2) == 0 && ntab >= 3 {
+					o.first = 1 + c.rng.Intn(ntab-1) // a range with tables beneath it
+				}
 				o.last = o.first + c.rng.Intn(ntab-o.first)
-			case r == 2 && which != "c12":
+			case r == 3 && which != "c12":
 				o.kind = "CA"
 			default:
 				o.kind = "A"
@@ -187,10 +195,16 @@ func runHistories(c *ctx, which string) error {
 					nl := c.rng.Intn(4)
 					for k := 0; k < nl; k++ {
 						u := ui
+						nm := pool[c.rng.Intn(len(pool))]
 						if c.rng.Intn(3) == 0 && ui > 1 {
 							u = 1 + uint64(c.rng.Intn(int(ui)))
+							// mostly aim at a log entry that exists (so that the record written is its tombstone)
+							if len(liveLogs) > 0 && c.rng.Intn(4) > 0 {
+								e := liveLogs[c.rng.Intn(len(liveLogs))]
+								nm, u = e.n, e.u
+							}
 						}
-						set[lk{pool[c.rng.Intn(len(pool))], u}] = true
+						set[lk{nm, u}] = true
 					}
 					var ks []lk
 					for k := range set {
@@ -201,7 +215,8 @@ func runHistories(c *ctx, which string) error {
 					})
 					for _, k := range ks {
 						l := reftable.LogRecord{RefName: k.n, UpdateIndex: k.u}
-						if k.u == ui || c.rng.Intn(2) == 0 { // else: deletion of an older entry
+						if k.u == ui || c.rng.Intn(3) == 0 { // else: deletion of an older entry
+							liveLogs = append(liveLogs, lkey{k.n, k.u})
 							l.New = oids[c.rng.Intn(3)]
 							if c.rng.Intn(2) == 0 {
 								l.Old = oids[c.rng.Intn(3)]
